@@ -311,7 +311,22 @@ func checkC06(c *core.Ctx) []core.Floor {
 			if r.Chance(1, 6) {
 				rows = 0
 			}
-			ct, ins := g.StdTable(fmt.Sprintf("t%d", ti+1), rows)
+			// tables of different widths: the first one wide, the later ones
+			// narrower now and then (a star schema)
+			var drop []string
+			var extra []proto.ColDef
+			if r.Chance(1, 2) {
+				switch ti {
+				case 0:
+					for k, ne := 0, r.Range(1, 4); k < ne; k++ {
+						extra = append(extra, proto.ColDef{Name: fmt.Sprintf("x%d", k), Type: []string{"int", "varchar", "boolean"}[r.Intn(3)], Len: 12})
+					}
+				default:
+					drop = [][]string{{"f"}, {"s", "f"}, {"b", "s", "f"}, {"b", "f"}}[r.Intn(4)]
+				}
+			}
+			ct, ins := g.ShapedTable(fmt.Sprintf("t%d", ti+1), rows, drop, extra...)
+			c.Count(fmt.Sprintf("table_width_%d", len(ct.Defs)), 1)
 			sc.setup = append(sc.setup, ct)
 			if rows > 0 {
 				sc.setup = append(sc.setup, ins)
@@ -338,15 +353,30 @@ func checkC06(c *core.Ctx) []core.Floor {
 		}
 		// ambiguity probes
 		for k := 0; k < 10; k++ {
-			col := []string{"a", "u", "s", "b", "f"}[r.Intn(5)]
-			typ := map[string]string{"a": "int", "u": "int", "s": "varchar", "b": "bigint", "f": "boolean"}[col]
 			q := &proto.NStmt{Kind: "select", From: []proto.NTable{{Name: "t1"}, {Name: "t2", Join: []string{"inner", "left", "right"}[r.Intn(3)],
 				On: &proto.Cond{Op: "=", LHS: model.QColOp("t1", "u"), RHS: model.QColOp("t2", "u")}}}}
 			if r.Chance(1, 3) {
-				// three tables: the name is ambiguous between the first and the last
+				// three tables: the name may be ambiguous between the first and the last only
 				q.From = append(q.From, proto.NTable{Name: "t3", Join: []string{"inner", "left", "right"}[r.Intn(3)],
 					On: &proto.Cond{Op: "=", LHS: model.QColOp("t2", "u"), RHS: model.QColOp("t3", "u")}})
 			}
+			// a name that at least two of the joined tables have (tables differ in width)
+			var shared []string
+			for _, name := range []string{"a", "u", "s", "b", "f"} {
+				n := 0
+				for _, ft := range q.From {
+					for _, cl := range m.Table(ft.Name).Cols {
+						if cl.Name == name {
+							n++
+						}
+					}
+				}
+				if n >= 2 {
+					shared = append(shared, name)
+				}
+			}
+			col := shared[r.Intn(len(shared))]
+			typ := map[string]string{"a": "int", "u": "int", "s": "varchar", "b": "bigint", "f": "boolean"}[col]
 			cmp := func() *proto.Cond { // the bare name inside a comparison, on either side
 				c := &proto.Cond{Op: "=", LHS: model.ColOp(col), RHS: model.LitOp(g.LitFor(typ))}
 				if r.Bool() {
@@ -364,9 +394,10 @@ func checkC06(c *core.Ctx) []core.Floor {
 				pos = "where"
 				q.Star = true
 				q.Where = cmp()
-			case 2: // in ON
+			case 2: // in ON (only t1 and t2 are visible there)
 				pos = "on"
 				q.Star = true
+				col = []string{"a", "u"}[r.Intn(2)]
 				q.From[1].On = &proto.Cond{Op: "=", LHS: model.ColOp(col), RHS: model.QColOp("t2", col)}
 			case 3: // inside a comparison in the select list
 				pos = "select_list_comparison"
@@ -385,9 +416,10 @@ func checkC06(c *core.Ctx) []core.Floor {
 				if r.Bool() {
 					q.Where = model.Or(fine, cmp())
 				}
-			case 6: // later term of ON
+			case 6: // later term of ON (only t1 and t2 are visible there)
 				pos = "on_later_term"
 				q.Star = true
+				col, typ = []string{"a", "u"}[r.Intn(2)], "int"
 				q.From[1].On = model.And(q.From[1].On, cmp())
 			case 7: // ORDER BY
 				pos = "order_by"
@@ -480,6 +512,9 @@ func runC07(c *core.Ctx, drv string, idx int) {
 		join := ""
 		if r.Chance(1, 4) {
 			join = "dim"
+		} else if r.Chance(1, 8) {
+			join = "both"
+			c.Count("three_table_join_with_narrow_tables", 1)
 		} else if r.Chance(1, 6) {
 			join = "dim2"
 			c.Count("group_by_same_named_columns_of_both_join_sides", 1)
